@@ -93,8 +93,10 @@ func (bc *BaseContract) TxMultiSwapCancel(sender *types.Sender, swapID string) e
 		return err
 	}
 	if !bytes.Equal(swap.GetCreator(), sender.Address().Bytes()) {
-		return fmt.Errorf("unauthorized, multiswap creator %s not eq sender %s",
-			string(swap.GetCreator()), sender.Address().String())
+		// the creator is raw address bytes (or "0000" on the robot's copy): print it as hex,
+		// an error text that is not valid UTF-8 cannot be marshalled into the batch response
+		return fmt.Errorf("unauthorized, multiswap creator %x not eq sender %s",
+			swap.GetCreator(), sender.Address().String())
 	}
 
 	ts, err := bc.GetStub().GetTxTimestamp()
